@@ -41,6 +41,17 @@ def evenint(value):
     return v
 
 
+def nested(value):
+    """A datatype built on ZConfig itself: it refuses a value the way ZConfig's own machinery
+    would -- with a DataConversionError (a ValueError like any other) that speaks of some
+    other text at some other place."""
+    try:
+        return evenint(value)
+    except ValueError as e:
+        import ZConfig
+        raise ZConfig.DataConversionError(e, "inner text", (4711, None, "file:///zcv/inner/elsewhere.conf"))
+
+
 COUNTER = {"n": 0, "fail_at": None, "exc": None, "calls": []}
 
 
